@@ -52,7 +52,10 @@ def main():
       meta = os.path.join(sd, name, "meta.json")
       if os.path.exists(meta):
         mm = json.load(open(meta))
-        muts.append({"name": "seeded/" + name, "property": mm["property"], "patch": os.path.join(sd, name, "patch.diff")})
+        if mm.get("superseded"):
+          print("MUTANT %-40s SUPERSEDED %s" % ("seeded/" + name, mm["superseded"][:120]))
+          continue
+        muts.append({"name": "seeded/" + name, "property": mm.get("checks") or mm["property"], "patch": os.path.join(sd, name, "patch.diff")})
   else:
     muts = json.load(open(os.path.join(ROOT, "mutants", "catalogue.json")))["mutants"]
   results = []
